@@ -163,10 +163,20 @@ def run_real(env_cls, src, datas, rename=None):
 
 
 def shard(arg) -> core.Part:
-    profile, pool, nmax, nmin, k, K, nren, ncol = arg
+    profile, pool, nmax, nmin, k, K, nren, ncol, alternate = arg
     import jinja2
 
     p = core.Part()
+    per_sig = {}
+
+    def report(sig, make_detail):
+        # known findings fire on very many cases: keep 3 details per signature and shard so
+        # that Part's overall cap can never hide a different signature
+        n = per_sig[sig] = per_sig.get(sig, 0) + 1
+        p.count("cases:" + sig)
+        if n <= 3:
+            p.violation(sig, make_detail())
+
     old_limit = sys.getrecursionlimit()
     sys.setrecursionlimit(420)  # endless macro recursion ends in RecursionError quickly
     try:
@@ -184,7 +194,7 @@ def shard(arg) -> core.Part:
                 got, cerr = run_real(jinja2.Environment, src, datas)
             if got is None:
                 p.evals += 1
-                p.violation("C03/compile-error/" + cerr.split(":")[0], {
+                report("C03/compile-error/" + cerr.split(":")[0], lambda: {
                     "msg": f"{src!r} does not compile: {cerr}",
                     "script": script_for(src, {}, "<compiles>")})
                 continue
@@ -210,7 +220,7 @@ def shard(arg) -> core.Part:
                 elif pattern[0] and pattern[1] and g == G.interpret(pe, d, ("late-store", "ctl-else")):
                     sig = "C03/late-store-hides-context+loopctl-else-after-break"
                 dd = {kk: v for kk, v in d.items() if v is not False}
-                p.violation(sig, {
+                report(sig, lambda: {
                     "msg": f"{src!r} on {dd}: rendered {g!r}, scoping rules give {exp!r}{why}",
                     "source": src, "data": dd, "got": repr(g), "expected": repr(exp), "profile": profile,
                     "script": script_for(src, d, exp, uses_tree=uses_tree)})
@@ -228,7 +238,9 @@ def shard(arg) -> core.Part:
                     if gen[j] not in chosen:
                         chosen.append(gen[j])
                     j = (j + step) % len(gen)
-            if col:
+            if alternate and col and chosen and idx % 2:
+                chosen = []  # odd programs get the colliding renaming instead of the ordinary one
+            if col and not (alternate and chosen):
                 n = len(col) if ncol is None else min(ncol, len(col))
                 for t in range(n):
                     chosen.append(col[(idx + t) % len(col)])
@@ -259,7 +271,7 @@ def shard(arg) -> core.Part:
                     else:
                         sig = "C03/alias/" + name
                         why = "renaming changed the output"
-                    p.violation(sig, {
+                    report(sig, lambda: {
                         "msg": f"{src2!r} on {d2}: rendered {g2!r}, but {src!r} renders {g!r} ({why})",
                         "source": src2, "data": d2, "got": repr(g2), "expected": repr(g), "original": src,
                         "renaming": name, "profile": profile,
@@ -270,22 +282,25 @@ def shard(arg) -> core.Part:
 
 
 # (profile, pool, max nodes, shards): each alphabet is enumerated completely up to its bound
+# alternate=True: one renaming per program (ordinary / NFKC-colliding alternately);
+# alternate=False: one ordinary and one colliding renaming per program
 QUICK = [
-    ("full", G.POOL2, 2, 16),
-    ("core", G.POOL2, 3, 16),
-    ("tiny3", G.POOL2, 3, 8),
-    ("alias", G.POOL3, 3, 8),
-    ("tiny", G.POOL2, 4, 64),
-    ("tiny2", G.POOL2, 4, 64),
+    ("full", G.POOL2, 2, 16, True),
+    ("core", G.POOL2, 3, 16, True),
+    ("tiny2", G.POOL2, 3, 8, True),
+    ("tiny3", G.POOL2, 3, 8, True),
+    ("alias", G.POOL3, 3, 8, False),
+    ("tiny", G.POOL2, 4, 64, True),
 ]
 THOROUGH = [
-    ("full", G.POOL2, 3, 512),
-    ("mid", G.POOL2, 3, 128),
-    ("core", G.POOL2, 4, 256),
-    ("tiny", G.POOL2, 4, 64),
-    ("tiny2", G.POOL2, 4, 64),
-    ("tiny3", G.POOL2, 4, 128),
-    ("alias", G.POOL3, 5, 1024),
+    ("full", G.POOL2, 3, 512, True),
+    ("mid", G.POOL2, 3, 128, True),
+    ("core", G.POOL2, 4, 256, True),
+    ("tiny", G.POOL2, 4, 64, True),
+    ("tiny2", G.POOL2, 4, 64, True),
+    ("tiny3", G.POOL2, 4, 128, True),
+    ("alias", G.POOL3, 4, 128, False),
+    ("alias5", G.POOL3, 5, 512, False),
 ]
 
 
@@ -309,19 +324,19 @@ def run(ctx: core.Ctx):
         "programs of alphabets closed under permuting the pool are represented by the member whose variables first occur in pool order",
     ]
     plan = QUICK if ctx.quick else THOROUGH
-    nren, ncol = (1, 1) if ctx.quick else (2, 2)
+    nren, ncol = 1, 1
     shards = []
     bounds = {}
-    for profile, pool, nmax, K in plan:
+    for profile, pool, nmax, K, alternate in plan:
         en = G._enum(pool, profile, 3)
         for n in range(nmax):
             en.lists(n, G.TOP)  # built once here, shared copy-on-write by the forked workers
-        shards += [(profile, pool, nmax, 0, k, K, nren, ncol) for k in range(K)]
+        shards += [(profile, pool, nmax, 0, k, K, nren, ncol, alternate) for k in range(K)]
         bounds[profile] = {"pool": list(pool), "max_nodes": nmax, "max_nesting": 3,
                            "labels": {kk: len(v) for kk, v in G.alphabet(pool, profile).items()}}
     ctx.pmap(shard, shards)
     ctx.cov["bounds"] = bounds
-    ctx.cov["renamings_per_program"] = {"non_colliding": nren, "nfkc_colliding": ncol,
+    ctx.cov["renamings_per_program"] = {"rule": "one per program, ordinary and NFKC-colliding alternately (alias profiles: one of each)",
                                         "menu": [n for n, _ in MENU], "colliding_menu": [n for n, _ in COLLIDE]}
     ctx.cov["programs"] = ctx.counters.get("programs", 0)
     ctx.cov["renamed_programs"] = ctx.counters.get("renamed_programs", 0)
